@@ -643,13 +643,13 @@ class BaseTaskPool:
                 return_exceptions=return_exceptions,
             )
         self._meta_tasks_cancelled.clear()
-        await gather(
-            *self._tasks_ended.values(),
-            *self._tasks_cancelled.values(),
-            return_exceptions=return_exceptions,
-        )
-        self._tasks_ended.clear()
-        self._tasks_cancelled.clear()
+        # Only the tasks gathered here may be forgotten afterwards; a task that
+        # ends or is cancelled while we are waiting is left for the next flush.
+        tasks = {**self._tasks_ended, **self._tasks_cancelled}
+        await gather(*tasks.values(), return_exceptions=return_exceptions)
+        for task_id in tasks:
+            self._tasks_ended.pop(task_id, None)
+            self._tasks_cancelled.pop(task_id, None)
 
     async def gather_and_close(
         self,
